@@ -1544,3 +1544,40 @@ package runtime
 //@   prop C09
 //@   effectsonly
 //@   effects first-call getResumeValues
+
+// ---------------------------------------------------------------------------
+// C11: a runtime error carries the position of the responsible instruction
+// ---------------------------------------------------------------------------
+// The position prefix of a runtime error is computed from the continuation's
+// saved program counter.  Each group of instructions that can fail (extracted
+// verbatim from LuaCont.RunInThread): when the instruction hands an error to
+// the caller, the saved program counter is that of the failing instruction.
+//@ fragment vm_index of (*LuaCont).RunInThread at for RunLoop/switch opcode.TypePfx()/case code.Type2Pfx
+//@   prop C11
+//@   arith int
+//@   norte
+//@   nocover
+//@   modifies everything()
+//@   exits any
+//@   requires c != nil && t != nil
+//@   ensures !fragNext && fragRes1 != nil ==> c.pc == pc
+
+//@ fragment vm_binop of (*LuaCont).RunInThread at for RunLoop/if opcode.HasType1()/then
+//@   prop C11
+//@   arith bv
+//@   norte
+//@   nocover
+//@   modifies everything()
+//@   exits any
+//@   requires c != nil && t != nil
+//@   ensures !fragNext && fragRes1 != nil ==> c.pc == pc
+
+//@ fragment vm_unop of (*LuaCont).RunInThread at for RunLoop/switch opcode.TypePfx()/case code.Type4Pfx
+//@   prop C11
+//@   arith bv
+//@   norte
+//@   nocover
+//@   modifies everything()
+//@   exits any
+//@   requires c != nil && t != nil
+//@   ensures !fragNext && fragRes1 != nil ==> c.pc == pc
